@@ -11,8 +11,9 @@ histories of **any** length:
   violation `translate_three_frames_not_rect` of the excluded case; `compress_empty_unchanged`);
 * `step_names_nodup` / `run_names_nodup` — names stay pairwise distinct unless the caller edits names;
 * `step_refines` / `run_refines` — refinement to the plain-list reference model `Gv.Spec.stepOp`, for
-  all 36 operations of the history language (`Unalign`, `RenameRegexp`, `SetAlphabet`,
-  `ReverseComplementSequences`, `DiffWithFirst`, `ReplaceMatchChars`, `Mask` and `MaskOccurences` / `MaskUnique` included);
+  all 38 operations of the history language (`Unalign`, `RenameRegexp`, `SetAlphabet`,
+  `ReverseComplementSequences`, `DiffWithFirst`, `ReplaceMatchChars`, `Mask`, `MaskOccurences` / `MaskUnique`, the general
+  `RemoveCharacterSites` and `RemoveMajorityCharacterSites` included);
 * `lookup_paths_agree`, `idByName_spec`, `byName_found_iff`, `obs_*` — the access paths agree;
 * `add_wrong_length_rejected` — a sequence of the wrong length is rejected, state unchanged.
 
@@ -166,6 +167,22 @@ theorem step_inv (b : Bag) (h : Inv b) (op : Op) (hw : OpWF b op) : Inv (stepOp 
     · split
       · exact h
       · rename_i r hr; exact (sameShape_maskOccBag hr).inv h
+  | rmCharSites cs num den ends ic ig iN rev =>
+    simp only [stepOp]
+    split
+    · exact h
+    · split
+      · exact h
+      · rename_i r hr
+        exact inv_cleanSitesBag (isCleanFn_char _ cs ends ic ig iN rev) b h r hr
+  | rmMajSites num den ends ig iN =>
+    simp only [stepOp]
+    split
+    · exact h
+    · split
+      · exact h
+      · rename_i r hr
+        exact inv_cleanSitesBag (isCleanFn_maj _ ends ig iN) b h r hr
 
 /-- **Every reachable state satisfies the invariant**: induction over histories of any length, from
 any state satisfying it (in particular from the empty containers). -/
@@ -476,6 +493,22 @@ theorem step_rect (b : Bag) (h : Rect b) (op : Op) (hw : RectOK b op) : Rect (st
     · split
       · exact h
       · rename_i r hr; exact (sameShape_maskOccBag hr).rect h
+  | rmCharSites cs num den ends ic ig iN rev =>
+    simp only [stepOp]
+    split
+    · exact h
+    · split
+      · exact h
+      · rename_i r hr
+        exact rect_cleanSitesBag (isCleanFn_char _ cs ends ic ig iN rev) h r hr
+  | rmMajSites num den ends ig iN =>
+    simp only [stepOp]
+    split
+    · exact h
+    · split
+      · exact h
+      · rename_i r hr
+        exact rect_cleanSitesBag (isCleanFn_maj _ ends ig iN) h r hr
 
 /-- **Every reachable alignment is rectangular**: induction over histories of any length. -/
 theorem run_rect (ops : List Op) (b : Bag) (h : Rect b) (hw : HistRectOK b ops) : Rect (finalState b ops) := by
@@ -614,11 +647,11 @@ def OpWFR (b : Bag) : Op → Prop
   | .sample _ perm => IsPerm perm b.rows.length
   | _ => True
 
-/-- **One step refines the reference model** — every one of the 36 operations of the history
+/-- **One step refines the reference model** — every one of the 38 operations of the history
 language (`add`, `ignore`, `clear`, `append`, `concat`, `rename`, `appendId`, `cleanNames`, `trimNames`,
 `trimAuto`, `sort`, `permute`, `filter`, `dedup`, `rmSeqs`, `translate`, `clone`, `sample`, `toUpper`,
 `toLower`, `replace`, `setChar`, `trimSeqs`, `autoAlpha`, `revcomp`, `replaceChar`, `rmGapSites`, `compress`,
-`unalign`, `renameRe`, `setAlpha`, `revcompSeqs`, `diffFirst`, `replaceMatch`, `mask`, `maskOcc`), arbitrary arguments: whenever the reference
+`unalign`, `renameRe`, `setAlpha`, `revcompSeqs`, `diffFirst`, `replaceMatch`, `mask`, `maskOcc`, `rmCharSites`, `rmMajSites`), arbitrary arguments: whenever the reference
 specifies the outcome of the operation on the observable content, the Go-shaped model yields exactly
 that content (names, row order, residues, policy, alphabet, kind) and that status, and the strong
 invariant holds again. -/
@@ -663,6 +696,8 @@ theorem step_refines (b : Bag) (h : Good b) (op : Op) (hw : OpWFR b op)
     | replaceMatch => exact ref_replaceMatch h
     | mask refseq start len mr nogap noref => exact ref_mask h refseq start len mr nogap noref
     | maskOcc refseq maxOcc mr => exact ref_maskOcc h refseq maxOcc mr
+    | rmCharSites cs num den ends ic ig iN rev => exact ref_rmCharSites h cs num den ends ic ig iN rev
+    | rmMajSites num den ends ig iN => exact ref_rmMajSites h num den ends ig iN
   exact this s' st hs
 
 /-- the reference model run over a history: final content and the status of every step; `none` as
@@ -847,5 +882,29 @@ example : ∃ s' sts, specRun (abs (newAlign 1)) demoHist4 = some (s', sts) ∧
     rw [h] at h2
     simp only [Option.map_some, Option.some.injEq, Prod.mk.injEq] at h2
     exact ⟨r.1, r.2, rfl, this.1, this.2.1, h2.1, h2.2⟩
+
+-- the general site cleaning in a history: `RemoveCharacterSites` on the set {A, c} up to case, gaps not counted, in `ends`
+-- mode (the leading run of two qualifying columns and the trailing all-gap column - nothing counts there - go, the
+-- qualifying column in the middle stays); then `RemoveMajorityCharacterSites` at cutoff 1 (the constant column goes);
+-- then the general form on the gap character (no gap is left)
+def demoHist5 : List Op :=
+  [.add "a" [65, 97, 71, 65, 84, 45], .add "b" [97, 67, 84, 99, 84, 45], .add "c" [45, 65, 71, 67, 84, 45],
+   .rmCharSites [65, 99] 1 1 true true true false false, .rmMajSites 1 1 false false false,
+   .rmCharSites [45] 0 1 false false false false false]
+
+set_option maxRecDepth 100000 in
+example : ∃ s' sts, specRun (abs (newAlign 1)) demoHist5 = some (s', sts) ∧
+    abs (finalState (newAlign 1) demoHist5) = s' ∧ (runOps (newAlign 1) demoHist5).map (·.2) = sts := by
+  have hsome : (specRun (abs (newAlign 1)) demoHist5).isSome = true := by decide
+  cases h : specRun (abs (newAlign 1)) demoHist5 with
+  | none => rw [h] at hsome; cases hsome
+  | some r =>
+    have := run_refines demoHist5 _ (good_of_empty_align 1) (by simp [demoHist5, HistWFR, OpWFR]) r.1 r.2 h
+    exact ⟨r.1, r.2, rfl, this.1, this.2.1⟩
+
+-- what the model shows after it (the cutoff test is float arithmetic: evaluated, not kernel-reduced)
+#guard (runOps (newAlign 1) demoHist5).map (·.2) =
+  ["ok", "ok", "ok", "ok[2,1,2+3+4,0+1+5]", "ok[0,1,0+1,2]", "ok[0,0,0+1,_]"]
+#guard pairs (finalState (newAlign 1) demoHist5) = [("a", [71, 65]), ("b", [84, 99]), ("c", [71, 67])]
 
 end Gv.Props.C01
